@@ -246,6 +246,73 @@ def shard_e2e(arg):
     return st
 
 
+def winding_case(case, q=None, ids=None):
+    h, w = case["grid"]
+    if q is None:
+        from cspuz import Solver
+
+        s = Solver()
+        arr = s.bool_array((h, w))
+        post(case, s, arr)
+        q = encq.Query(s)
+        ids = [v.id for v in arr]
+    act = {tuple(c) for c in case["cells"]}
+    pat = [(y, x) in act for y in range(h) for x in range(w)]
+    want = reference(h * w, graphref.grid_edges(h, w), pat, case["acyclic"])
+    got = q.admits(ids, pat)
+    if got != want:
+        raise Failure(("admits-invalid|" if got else "rejects-valid|") + tag(case) + "|winding",
+                      observed=got, expected=want, detail=dict(grid=[h, w], shape=case.get("shape")))
+    return dict(n=len(act), want=want)
+
+
+def shard_winding(arg):
+    """boards beyond the exhaustive scope (12-30 cells) through the BoolArray2D form: long winding
+    patterns (spiral, snake, ring, random induced paths) and their neighbours with one cell removed or
+    added, decided on the posted program through one Query per (shape, acyclic)"""
+    seed, shapes, n = arg
+    st = Stats()
+    from cspuz import Solver
+    from hypothesis import strategies as hs
+    from vlib import winding
+
+    for (h, w) in shapes:
+        for acyclic in (False, True):
+            case0 = dict(grid=[h, w], acyclic=acyclic, native=False)
+            s = Solver()
+            arr = s.bool_array((h, w))
+            try:
+                post(case0, s, arr)
+            except Exception as e:
+                st.fail(Failure("posting-raises|%s|%s" % (tag(case0), repo_frame_sig(e)), observed=str(e)[:150]),
+                        case0, "c04.winding")
+                continue
+            q = encq.Query(s)
+            ids = [v.id for v in arr]
+            edges = graphref.grid_edges(h, w)
+
+            @hs.composite
+            def pattern(draw):
+                name, cells = winding.shapes(draw, hs, h, w)
+                act = set(cells)
+                k = draw(hs.integers(0, 3))
+                if k == 1 and len(cells) >= 3:      # cut the shape in the middle
+                    act.discard(cells[draw(hs.integers(1, len(cells) - 2))])
+                elif k == 2:                         # one more cell somewhere (may close a cycle)
+                    act.add((draw(hs.integers(0, h - 1)), draw(hs.integers(0, w - 1))))
+                return dict(case0, shape=name, cells=sorted(list(c) for c in act))
+
+            def body(case):
+                out = winding_case(case, q, ids)
+                st.case(canon=case, nontrivial=out["n"] >= 6,
+                        classes=["winding", "winding:" + case["shape"], "winding:" + ("valid" if out["want"] else "invalid")],
+                        sample=case if out["n"] >= 8 else None)
+
+            hyp_search(st, pattern(), body, seed=seed + h * 31 + w + (7 if acyclic else 0), max_examples=n,
+                       check="c04.winding", rounds=2)
+    return st
+
+
 def orientation_variants(edges):
     """the same simple graph with its edges entered ascending, descending and 'long edges reversed'"""
     out = [[list(e) for e in edges]]
@@ -310,7 +377,12 @@ def run(ctx):
         ctx.stats.merge(r)
     for r in pmap(shard_e2e, [(ctx.seed * 1000 + 50 + i, 250 if quick else 3000, 6) for i in range(8 if quick else 16)]):
         ctx.stats.merge(r)
+    wshapes = [(3, 4), (4, 4), (3, 6), (5, 5), (4, 6), (5, 6), (2, 9), (6, 6)]
+    for r in pmap(shard_winding, [(ctx.seed * 1000 + 80 + i, [sh], 30 if quick else 400) for i, sh in enumerate(wshapes)]):
+        ctx.stats.merge(r)
     cl = ctx.stats.classes
+    ctx.floor("winding patterns that are valid", cl["winding:valid"], 60)
+    ctx.floor("winding patterns that are invalid", cl["winding:invalid"], 30)
     tot = max(1, cl["projection"])
     ctx.floor("projection patterns on disconnected graphs", cl["disconnected-graph"], 1000)
     ctx.floor("projection patterns on 1xN / Nx1 grids", cl["single-row-or-column-grid"], 1000)
@@ -322,6 +394,9 @@ def replay(ctx, rep):
     case = rep["case"]
     if rep.get("check") == "c04.e2e":
         e2e_case(case)
+        return
+    if rep.get("check") == "c04.winding":
+        winding_case(case)
         return
     st = Stats()
     c = dict(case)
